@@ -42,7 +42,7 @@ import (
 
 func init() { core.Register("C45", "exploration", run) }
 
-var ops = []string{"transfer-out", "transfer-back", "relay", "mock-packet", "v2-packet", "update-clients", "timeout", "blocks"}
+var ops = []string{"transfer-out", "transfer-back", "relay", "mock-packet", "v2-packet", "update-clients", "timeout", "blocks", "ambiguous-port"}
 
 // ---- deterministic full nodes ---------------------------------------------------------------
 
@@ -96,6 +96,7 @@ type node struct {
 	h                interface{ Write([]byte) (int, error) }
 	running          []byte
 	blocksSeen       int
+	oddSeq           int
 	lastHashA, lastB string
 }
 
@@ -196,6 +197,40 @@ func (n *node) apply(op string) {
 		}
 	case "blocks":
 		n.coord.CommitBlock(n.a, n.b)
+	case "ambiguous-port":
+		// channel handshakes on ports whose identifier contains the names of TWO registered routes (valid
+		// input: ICA owner strings are free-form, e.g. icacontroller-transfer-0): 05-port's substring fallback
+		// must choose the same module on every node. The route names are sorted here so that the tour itself
+		// does not depend on Keys().
+		keys := append([]string{}, n.a.GetSimApp().IBCKeeper.PortKeeper.Router.Keys()...)
+		sort.Strings(keys)
+		n.oddSeq++
+		codes := ""
+		for i, x := range keys {
+			for j, y := range keys {
+				if i == j {
+					continue
+				}
+				port := fmt.Sprintf("%s-%s-%d", x, y, n.oddSeq)
+				if len(port) > 128 {
+					continue
+				}
+				msg := channeltypes.NewMsgChannelOpenInit(port, "", channeltypes.UNORDERED, []string{n.tp.EndpointA.ConnectionID}, transfertypes.PortID, n.a.SenderAccount.GetAddress().String())
+				res, err := n.a.SendMsgs(msg)
+				switch {
+				case res != nil:
+					// (gas is not folded in: the SDK test signer puts a random memo into every transaction, so transaction
+					// bytes and with them gas differ between processes; state and result codes must not)
+					codes += fmt.Sprintf("%s:%s/%d;", port, res.Codespace, res.Code)
+				case err != nil:
+					codes += port + ":rejected;"
+				}
+			}
+		}
+		if os.Getenv("VERIF_C45_DEBUG") != "" {
+			fmt.Fprintf(os.Stderr, "C45DBG %s\n", codes)
+		}
+		n.observe("ambiguous-port:" + codes)
 	}
 }
 
